@@ -18,6 +18,9 @@ type HelperContext struct {
 	hctx.Context
 	compiler *compiler
 	block    *ast.BlockStatement
+	// exit receives the break or continue that ended the block, on behalf
+	// of the statement that called the helper
+	exit *exitBlockStatment
 }
 
 const helperContextKind = "HelperContext"
@@ -59,6 +62,19 @@ func (h HelperContext) BlockWith(hc hctx.Context) (string, error) {
 	i, err := h.compiler.evalBlockStatement(h.block)
 	if err != nil {
 		return "", err
+	}
+
+	// a break or continue ends the block; the helper still receives what the
+	// block produced up to there, and the loop around the helper call is told
+	switch i.(type) {
+	case continueObject:
+		if h.exit != nil {
+			*h.exit = continueObject{}
+		}
+	case breakObject:
+		if h.exit != nil {
+			*h.exit = breakObject{}
+		}
 	}
 
 	bb := &strings.Builder{}
